@@ -403,21 +403,21 @@ pub fn run(run: &Run) {
     let workers = run.workers();
     prop_search(
         run,
-        Search { check: "frame-paths", cases: run.tier.pick(120_000, 6_000_000), workers, max_shrink_iters: 6000 },
+        Search { check: "frame-paths", cases: run.tier.pick(1_000_000, 12_000_000), workers, max_shrink_iters: 6000 },
         || case_strategy(input_strategy()),
         |c| wrap(vcore::catch(|| test_frame_paths(c))),
         |c| serde_json::to_value(c).unwrap(),
     );
     prop_search(
         run,
-        Search { check: "header-paths", cases: run.tier.pick(80_000, 3_000_000), workers, max_shrink_iters: 4000 },
+        Search { check: "header-paths", cases: run.tier.pick(600_000, 6_000_000), workers, max_shrink_iters: 4000 },
         || case_strategy(header_input_strategy()),
         |c| wrap(vcore::catch(|| test_header_paths(c))),
         |c| serde_json::to_value(c).unwrap(),
     );
     prop_search(
         run,
-        Search { check: "typestate-paths", cases: run.tier.pick(200_000, 8_000_000), workers, max_shrink_iters: 6000 },
+        Search { check: "typestate-paths", cases: run.tier.pick(1_500_000, 16_000_000), workers, max_shrink_iters: 6000 },
         || (0u8..4, case_strategy(input_strategy())),
         |(t, c)| wrap(vcore::catch(|| test_typestate_paths(model::ALL_TS[*t as usize], c))),
         |(t, c)| serde_json::json!({"typestate": t, "case": c}),
